@@ -28,8 +28,8 @@ CONSTANT Dev     \* named deviations of today's code, see DESIGN 2.6
 
 \* D_opt_rcode_sticks: OptBuilder::set_rcode writes the low four bits of the
 \* extended RCODE into the message header at once; when the OPT push then
-\* fails (no room, push limit) the record is cut off again but the header keeps
-\* the new RCODE.
+\* fails (no room for the options, push limit) the record is cut off again but
+\* the header keeps the new RCODE.
 \*
 \* D_ptr_limit_c000: StaticCompressor::insert, TreeCompressor::insert,
 \* HashEntry::new and the three Truncate guards compare offsets with 0xC000
@@ -247,7 +247,10 @@ PushH(sec, item, hd) ==
           /\ UNCHANGED <<cfg, section, starts, limit>>
        \/ /\ MayErr(n, sec)
           /\ \E t \in {TruncSt(cfg.comp, c, buf.len)} :     \* target.truncate(pos)
-               /\ buf' = IF "D_opt_rcode_sticks" \in Dev THEN BSetHdr(t.b, hd) ELSE t.b
+               \* (the closure given to opt() runs once the fixed part of the OPT
+               \* record, 11 octets, has found room)
+               /\ buf' = IF "D_opt_rcode_sticks" \in Dev /\ buf.len + 11 <= cfg.cap
+                         THEN BSetHdr(t.b, hd) ELSE t.b
                /\ tab' = t.tab /\ plog' = t.plog /\ shim' = t.b.len
           /\ res' = "err"
           /\ UNCHANGED <<cfg, section, starts, limit, accepted, hdr>>
